@@ -103,6 +103,11 @@ func Harness_C09_step() {
 		switch {
 		case sendFails:
 			vassert(returned && cerr != nil, "C09: a push whose transmission fails is reported")
+			// whatever is still registered for it, the next callback must not get the same id
+			for id := range s.call {
+				k, isInt := tokIntValue(json.RawMessage(id))
+				vassert(isInt && int64(k) < s.callID, "C09: ids of registered callbacks stay below the counter (the next callback's id is unique among outstanding ones)")
+			}
 			// the caller's context never ends; the server stops: nothing may stay behind
 			s.Stop()
 			quiesce()
